@@ -18,10 +18,10 @@ def jobs(tier, pid='C11', mode=1, config='haswell', defines=(), nmax=None, small
             add('free%d.p%d' % (n, path), [path, 0, n], 'every byte string of length %d, path #%d' % (n, path), nproc=1 if n < 7 else 4)
     # tail-length families: filler of 32k+r / 64k+r bytes then 4 symbolic bytes, inside string / array / object / top level
     fills = [31, 32, 33, 64, 65] if small else [30, 31, 32, 33, 34, 62, 63, 64, 65, 66] if q else list(range(28, 37)) + list(range(60, 69)) + [126, 127, 128, 129, 130]
-    KN = {0: 'spaces', 1: 'string content with brackets', 2: 'string content ending in an escaped quote', 3: '3 spaces then a second run of spaces (cached whitespace bitmap)'}
+    KN = {0: 'spaces', 1: 'string content with brackets', 2: 'string content ending in an escaped quote', 3: '3 spaces then a second run of spaces (cached whitespace bitmap)', 4: 'string content with an escaped quote at a block edge followed by 20 more bytes of the same string'}
     for sk in range(5):
-        for kind in (0, 1, 2, 3):
-            ff = fills if kind < 2 else ([17, 33, 65] if kind == 2 else [59, 60, 61, 62, 87, 88]) if (q or small) else ([16, 17, 18, 32, 33, 34, 64, 65, 66] if kind == 2 else list(range(56, 70)) + list(range(84, 92)))
+        for kind in (0, 1, 2, 3, 4):
+            ff = fills if kind < 2 else ([17, 33, 65] if kind in (2, 4) else [59, 60, 61, 62, 87, 88]) if (q or small) else ([16, 17, 18, 32, 33, 34, 48, 49, 64, 65, 66] if kind in (2, 4) else list(range(56, 70)) + list(range(84, 92)))
             for f in ff:
                 for path in ((0, 1, 2) if q else (0, 1, 2, 3, 5)):
                     if kind == 3 and sk in (3, 4): continue
